@@ -1,6 +1,7 @@
 import MCHap.Proofs.MH
 import MCHap.Proofs.Paths
 import MCHap.Proofs.IntervalRefine
+import MCHap.Proofs.IntervalKernel
 import MCHap.Model.AssembleMoves
 import MCHap.Properties.C04
 import MCHap.Proofs.Prior
@@ -355,6 +356,115 @@ theorem asmW_perm (P : AsmParams) {g g' : Genotype} (h : g.Perm g') : asmW P g =
   unfold asmW
   rw [C04.lik_perm_haps P.reads P.nb h, assemblePrior_dosage_perm P.U P.F h]
 
+/-! ### the literal interval kernels of the model
+
+`intervalStepOptions` is the model of `interval_step`: segment labels of the stored rows
+(`haplotype_segment_labels`), the double-loop option enumerators, `structural_change` for the target,
+the posterior ratio `R`, the proposal ratio `Q = n_options / n_return_options` counted on the option's
+label array.  `kernelMass` is the probability it moves from the ordered genotype it is given to an
+unordered genotype; the two theorems below state detailed balance of that literal kernel w.r.t.
+`asmW^T` for every inverse temperature, every interval and every pair of genotypes with positive weight. -/
+
+/-- mass the option kernel `opts` (uniform proposal, acceptance `min 1 (R^T · Q)`) puts on the
+    unordered genotype `G'` -/
+noncomputable def kernelMass (T : ℝ) (opts : List MoveOption) (G' : Multiset Hap) : ℝ :=
+  ((opts.filter (fun o => decide (((o.target : Genotype) : Multiset Hap) = G'))).map
+    (fun o => (1 / (opts.length : ℝ)) * min 1 ((((o.R : ℚ) : ℝ)) ^ T * ((o.Q : ℚ) : ℝ)))).sum
+
+theorem map_filter_sum_congr {α : Type} (l : List α) (p : α → Bool) (f f' : α → ℝ)
+    (h : ∀ x ∈ l, p x = true → f x = f' x) : ((l.filter p).map f).sum = ((l.filter p).map f').sum := by
+  congr 1
+  apply List.map_congr_left
+  intro x hx
+  rw [List.mem_filter] at hx
+  exact h x hx.1 hx.2
+
+theorem kernelMass_dosage (P : AsmParams) (T : ℝ) (g g' : Genotype) (lo hi : ℕ)
+    (pg' : 0 < asmW P g') (pg : 0 < asmW P g) :
+    kernelMass T (intervalStepOptions P g lo hi 1) (g' : Multiset Hap)
+      = Kernel.dosageMass (fun x => ((asmW P x : ℚ) : ℝ) ^ T) P.nb lo hi g (g' : Multiset Hap) := by
+  unfold kernelMass intervalStepOptions Kernel.dosageMass
+  simp only [show (1 : ℕ) ≠ 0 from one_ne_zero, if_false, List.length_map]
+  rw [List.filter_map, List.map_map]
+  apply map_filter_sum_congr
+  intro o _ ho
+  simp only [Function.comp, decide_eq_true_eq] at ho ⊢
+  have hw : asmW P (structuralChange g P.nb (o.map (·.1)) lo hi) = asmW P g' :=
+    asmW_perm P (Quotient.exact ho)
+  have p1 : (0 : ℝ) ≤ ((asmW P g' : ℚ) : ℝ) := by exact_mod_cast pg'.le
+  have p2 : (0 : ℝ) ≤ ((asmW P g : ℚ) : ℝ) := by exact_mod_cast pg.le
+  unfold Kernel.tgtOf
+  rw [hw]
+  push_cast
+  rw [Real.div_rpow p1 p2]
+
+theorem kernelMass_recomb (P : AsmParams) (T : ℝ) (g g' : Genotype) (lo hi : ℕ)
+    (pg' : 0 < asmW P g') (pg : 0 < asmW P g) :
+    kernelMass T (intervalStepOptions P g lo hi 0) (g' : Multiset Hap)
+      = Kernel.recombMass (fun x => ((asmW P x : ℚ) : ℝ) ^ T) P.nb lo hi g (g' : Multiset Hap) := by
+  unfold kernelMass intervalStepOptions Kernel.recombMass
+  simp only [if_true, List.length_map]
+  rw [List.filter_map, List.map_map]
+  apply map_filter_sum_congr
+  intro o _ ho
+  simp only [Function.comp, decide_eq_true_eq] at ho ⊢
+  have hw : asmW P (structuralChange g P.nb (o.map (·.1)) lo hi) = asmW P g' :=
+    asmW_perm P (Quotient.exact ho)
+  have p1 : (0 : ℝ) ≤ ((asmW P g' : ℚ) : ℝ) := by exact_mod_cast pg'.le
+  have p2 : (0 : ℝ) ≤ ((asmW P g : ℚ) : ℝ) := by exact_mod_cast pg.le
+  unfold Kernel.tgtOf
+  rw [hw]
+  push_cast
+  rw [Real.div_rpow p1 p2]
+
+/-- **interval dosage swap (literal kernel)**: detailed balance w.r.t. `asmW^T` on unordered
+    genotypes — for every ploidy, locus length, interval, duplicated-haplotype pattern and
+    temperature; the flow out of the stored row order `g` into the multiset of `g'` equals the flow
+    back, so the kernel depends on the stored order only through the multiset. -/
+theorem dosage_step_kernel_db (P : AsmParams) (T : ℝ) (g g' : Genotype) (lo hi : ℕ)
+    (hw : ∀ x ∈ g, x.length = P.nb) (hw' : ∀ x ∈ g', x.length = P.nb) (hlo : lo ≤ hi) (hhi : hi ≤ P.nb)
+    (pg : 0 < asmW P g) (pg' : 0 < asmW P g') :
+    ((asmW P g : ℚ) : ℝ) ^ T * kernelMass T (intervalStepOptions P g lo hi 1) (g' : Multiset Hap)
+      = ((asmW P g' : ℚ) : ℝ) ^ T * kernelMass T (intervalStepOptions P g' lo hi 1) (g : Multiset Hap) := by
+  rw [kernelMass_dosage P T g g' lo hi pg' pg, kernelMass_dosage P T g' g lo hi pg pg']
+  have rg : (0 : ℝ) < ((asmW P g : ℚ) : ℝ) := by exact_mod_cast pg
+  have rg' : (0 : ℝ) < ((asmW P g' : ℚ) : ℝ) := by exact_mod_cast pg'
+  exact Kernel.dosage_literal_db (fun x => ((asmW P x : ℚ) : ℝ) ^ T)
+    (fun a b hab => congrArg (fun x : ℚ => (x : ℝ) ^ T) (asmW_perm P hab)) g g' P.nb lo hi hw hw' hlo hhi
+    (Real.rpow_pos_of_pos rg T) (Real.rpow_pos_of_pos rg' T)
+
+/-- **interval recombination (literal kernel)**: idem -/
+theorem recomb_step_kernel_db (P : AsmParams) (T : ℝ) (g g' : Genotype) (lo hi : ℕ)
+    (hw : ∀ x ∈ g, x.length = P.nb) (hw' : ∀ x ∈ g', x.length = P.nb) (hlo : lo ≤ hi) (hhi : hi ≤ P.nb)
+    (pg : 0 < asmW P g) (pg' : 0 < asmW P g') :
+    ((asmW P g : ℚ) : ℝ) ^ T * kernelMass T (intervalStepOptions P g lo hi 0) (g' : Multiset Hap)
+      = ((asmW P g' : ℚ) : ℝ) ^ T * kernelMass T (intervalStepOptions P g' lo hi 0) (g : Multiset Hap) := by
+  rw [kernelMass_recomb P T g g' lo hi pg' pg, kernelMass_recomb P T g' g lo hi pg pg']
+  have rg : (0 : ℝ) < ((asmW P g : ℚ) : ℝ) := by exact_mod_cast pg
+  have rg' : (0 : ℝ) < ((asmW P g' : ℚ) : ℝ) := by exact_mod_cast pg'
+  exact Kernel.recomb_literal_db (fun x => ((asmW P x : ℚ) : ℝ) ^ T)
+    (fun a b hab => congrArg (fun x : ℚ => (x : ℝ) ^ T) (asmW_perm P hab)) g g' P.nb lo hi hw hw' hlo hhi
+    (Real.rpow_pos_of_pos rg T) (Real.rpow_pos_of_pos rg' T)
+
+/-- the literal kernel's mass on an unordered target does not depend on the stored row order -/
+theorem dosage_mass_order_independent (P : AsmParams) (T : ℝ) (g₁ g₂ g' : Genotype) (lo hi : ℕ)
+    (hperm : g₁.Perm g₂)
+    (hw : ∀ x ∈ g₁, x.length = P.nb) (hw' : ∀ x ∈ g', x.length = P.nb) (hlo : lo ≤ hi) (hhi : hi ≤ P.nb)
+    (pg : 0 < asmW P g₁) (pg' : 0 < asmW P g') :
+    kernelMass T (intervalStepOptions P g₁ lo hi 1) (g' : Multiset Hap)
+      = kernelMass T (intervalStepOptions P g₂ lo hi 1) (g' : Multiset Hap) := by
+  have hw2 : ∀ x ∈ g₂, x.length = P.nb := fun x hx => hw x (hperm.mem_iff.mpr hx)
+  have pg2 : 0 < asmW P g₂ := by rw [← asmW_perm P hperm]; exact pg
+  have e1 := dosage_step_kernel_db P T g₁ g' lo hi hw hw' hlo hhi pg pg'
+  have e2 := dosage_step_kernel_db P T g₂ g' lo hi hw2 hw' hlo hhi pg2 pg'
+  have hq : ((g₁ : Genotype) : Multiset Hap) = (g₂ : Multiset Hap) := Quotient.sound hperm
+  rw [hq] at e1
+  rw [← asmW_perm P hperm] at e2
+  have rg : (0 : ℝ) < ((asmW P g₁ : ℚ) : ℝ) ^ T :=
+    Real.rpow_pos_of_pos (by exact_mod_cast pg) T
+  have := e1.trans e2.symm
+  exact mul_left_cancel₀ (ne_of_gt rg) this
+
 /-! ### detailed balance ⇒ stationarity -/
 
 /-- finite-state lemma giving the "consequently" clause: a kernel in detailed balance with `π`
@@ -377,6 +487,22 @@ example :
     let g : Genotype := [[0, 0], [0, 0], [1, 1]]
     0 < asmW P g ∧ 0 < asmW P [[0, 1], [0, 0], [1, 1]] ∧
     (baseStepOptions P g 0 1 2).map (·.Q) = [1/2] := by
+  decide +kernel
+
+/-- the hypotheses of `dosage_step_kernel_db` / `recomb_step_kernel_db` are satisfiable with a
+    non-trivial flow: from a triploid state with a duplicated haplotype the dosage kernel on the interval
+    `[0,1)` has one option (proposal ratio 1/2), the reverse state has two (ratio 2 back), and the
+    recombination kernel has an option as well -/
+example :
+    let r1 : Read := [[some (9/10), some (1/10)], [some (1/10), some (9/10)]]
+    let P : AsmParams := { reads := [(r1, 2)], nb := 2, U := 4, F := 1/10 }
+    let g : Genotype := [[0, 0], [0, 0], [1, 1]]
+    let g' : Genotype := [[1, 0], [0, 0], [1, 1]]
+    0 < asmW P g ∧ 0 < asmW P g' ∧
+    (intervalStepOptions P g 0 1 1).map (fun o => (o.target, o.Q)) = [(g', 1/2)] ∧
+    (intervalStepOptions P g' 0 1 1).map (fun o => (o.target, o.Q))
+      = [(g, 2), ([[1, 0], [0, 0], [0, 1]], 1)] ∧
+    (intervalStepOptions P g 0 1 0).map (fun o => (o.target, o.Q)) = [([[1, 0], [0, 0], [0, 1]], 1)] := by
   decide +kernel
 
 end MCHap.C01
